@@ -123,6 +123,7 @@ def bn_case(rng, n, edges, lat, deterministic=False):
         table = [[[c[i].numerator, c[i].denominator] for c in cols] for i in range(cards[v])]
         cpds.append({"v": v, "ps": ps, "table": table})
     return {"kind": "bn", "n": n, "edges": [list(e) for e in edges], "lat": list(lat), "cards": cards, "cpds": cpds,
+            "style": "str" if deterministic else rng.choice(["str", "str", "int", "tuple", "mixed"]),
             "nameseed": rng.randint(0, 10**9), "qseed": rng.randint(0, 10**9)}
 
 
@@ -146,6 +147,11 @@ def shrink(case):
 # ------------------------------------------------------------------ helpers
 def names_for(case):
     rng = random.Random(case["nameseed"])
+    style = case.get("style", "str")
+    if style != "str":
+        # CausalInference.query / BayesianNetwork.do accept any hashable node name (b0e2b86); the graph tests
+        # (set helper) accept strings only, so only the bn stream uses these
+        return common.node_names(rng, case["n"], style)
     pool = list(NAMEPOOL)
     rng.shuffle(pool)
     return pool[:case["n"]]
@@ -450,7 +456,7 @@ def cpd_canon_impl(cpd, names, sn, idx):
     out = {}
     for tup in itertools.product(*[range(len(cpd.state_names[u])) for u in vs]):
         st = {u: cpd.state_names[u][i] for u, i in zip(vs, tup)}
-        val = cpd.get_value(**st)
+        val = cpd.values[tup]          # axis k of .values is variable vs[k], index i is state cpd.state_names[vs[k]][i]
         key = (sn[v].index(st[vs[0]]), tuple(sorted((p, sn[p].index(st[names[p]])) for p in ps)))
         out[key] = float(val)
     return v, sorted(ps), out
@@ -471,11 +477,11 @@ def check_do(case, drv, m, names, sn, idx, Xs, inplace):
     if st == "err":
         return bad("model-error:do", {"X": Xs})
     me, mc = r
-    before_edges = sorted(m.edges())
+    before_edges = sorted(m.edges(), key=repr)
     target = m.copy() if inplace else m
     res = target.do([names[v] for v in Xs], inplace=inplace)
     d = target if inplace else res
-    if not inplace and sorted(m.edges()) != before_edges:
+    if not inplace and sorted(m.edges(), key=repr) != before_edges:
         return bad("mutated-argument:do", {"X": Xs})
     ie = sorted((idx[a], idx[b]) for a, b in d.edges())
     if ie != sorted(map(tuple, me)) or sorted(idx[u] for u in d.nodes()) != list(range(n)):
@@ -522,11 +528,12 @@ def impl_query(ci, names, sn, Y, dov, adj, algo):
         r = ci.query([names[v] for v in Y], do=do, inference_algo=algo, show_progress=False, **kw)
     except ValueError as e:
         return ("value", str(e)[:80])
+    if sorted(map(repr, r.variables)) != sorted(repr(names[v]) for v in Y):
+        return ("scope", sorted(map(repr, r.variables)))
     out = {}
     for tup in itertools.product(*[range(len(sn[v])) for v in Y]):
-        out[tup] = float(r.get_value(**{names[v]: sn[v][i] for v, i in zip(Y, tup)}))
-    if sorted(r.variables) != sorted(names[v] for v in Y):
-        return ("scope", sorted(r.variables))
+        want = {names[v]: sn[v][i] for v, i in zip(Y, tup)}
+        out[tup] = float(r.values[tuple(r.state_names[u].index(want[u]) for u in r.variables)])
     return ("ok", out)
 
 
@@ -580,7 +587,8 @@ def run_bn(case, drv):
     lat = case["lat"]
     rng = random.Random(case["qseed"])
     fnd = Findings()
-    tags = ["bn n=%d" % n, "latents=%d" % len(lat), "cards=%s" % "".join(map(str, sorted(case["cards"])))]
+    tags = ["bn n=%d" % n, "latents=%d" % len(lat), "cards=%s" % "".join(map(str, sorted(case["cards"]))),
+            "names=" + case.get("style", "str")]
     stats = {"queries": 0, "adjusted": 0}
     # ---- do(): structure and CPDs
     xsets = [s for s in subsets(range(n)) if s] if n <= 4 else [rng.sample(range(n), rng.randint(1, n)) for _ in range(8)]
@@ -636,12 +644,18 @@ def run_bn(case, drv):
             for y in range(n):
                 if y == x or y in lat:
                     continue
-                try:
-                    sets_ = ci.get_all_backdoor_adjustment_sets(names[x], names[y])
-                except ValueError:
+                mb = drv.call("c13_enum", gargs(case) + [lat, x, y, list(range(n))])[0]
+                if mb == [] or mb[0] == []:
                     tags.append("backdoor-sets:none")
                     continue
-                sets_ = [sorted(idx[u] for u in s) for s in sets_] or [[]]
+                sets_ = [sorted(s) for s in mb[0][0]] or [[]]
+                if case.get("style", "str") == "str":
+                    try:
+                        own = ci.get_all_backdoor_adjustment_sets(names[x], names[y])
+                    except ValueError:
+                        own = None
+                    if own is None or {frozenset(idx[u] for u in s) for s in own} != {frozenset(s) for s in mb[0][0]}:
+                        return bad("impl!=model:get_all_backdoor_adjustment_sets", {"x": x, "y": y, "lat": lat})
                 for s in sets_:
                     algo = rng.choice(["ve", "bp"])
                     b = check_query(case, drv, ci, names, sn, [y], dov, s, algo, fnd, tags, stats)
@@ -669,8 +683,8 @@ def run_sim(case, drv):
         dov = []
         for c in mc:
             if c[0] in X:
-                pos = [i for i, q in enumerate(c[2]) if common.frac(q) > 0]
-                dov.append((c[0], rng.choice(pos)))
+                # any value, also one of zero natural probability (bd5ba97 clamps the do-value)
+                dov.append((c[0], rng.randrange(len(c[2]))))
         Y = [v for v in range(n) if v not in X]
         spec = [common.frac(q) for q in drv.call("c13_trunc", MB + [Y, [list(p) for p in dov]])]
         tups = idx_tuples([case["cards"][v] for v in Y])
